@@ -248,9 +248,9 @@ theorem sum_set_erase [AddCommMonoid K] (l : List K) (m k : Nat) (hmk : m < k) (
         rw [ih m k (by omega) hk]
 
 /-- weight of a group for a fixed additive functional `e` of fields -/
-def Group.weight [AddCommMonoid K] (e : Fld K → K) (g : Group K) : K := (g.fields.map e).sum
+def Group.weight {M : Type} [AddCommMonoid M] (e : Fld K → M) (g : Group K) : M := (g.fields.map e).sum
 
-theorem step_total [AddCommMonoid K] (e : Fld K → K) (gs : List (Group K)) (m k : Nat) (hmk : m < k) (hk : k < gs.length) :
+theorem step_total {M : Type} [AddCommMonoid M] (e : Fld K → M) (gs : List (Group K)) (m k : Nat) (hmk : m < k) (hk : k < gs.length) :
     (((gs.set m (mergeGroups (gs[m]'(by omega)) gs[k])).eraseIdx k).map (Group.weight e)).sum
       = (gs.map (Group.weight e)).sum := by
   have hw : Group.weight e (mergeGroups (gs[m]'(by omega)) gs[k]) =
@@ -260,13 +260,13 @@ theorem step_total [AddCommMonoid K] (e : Fld K → K) (gs : List (Group K)) (m 
   rw [← List.eraseIdx_map, List.map_set, hw]
   exact sum_set_erase _ m k hmk (by rw [List.length_map]; exact hk)
 
-theorem disjoint_total [AddCommMonoid K] (e : Fld K → K) (fuel : Nat) (gs : List (Group K)) :
+theorem disjoint_total {M : Type} [AddCommMonoid M] (e : Fld K → M) (fuel : Nat) (gs : List (Group K)) :
     ((disjoint fuel gs).map (Group.weight e)).sum = (gs.map (Group.weight e)).sum := by
   refine disjoint_induction (fun gs' => (gs'.map (Group.weight e)).sum = (gs.map (Group.weight e)).sum) ?_ fuel gs rfl
   intro gs' m k hmk hk _ hP
   rw [step_total e gs' m k hmk hk]; exact hP
 
-theorem single_total [AddCommMonoid K] (e : Fld K → K) (fs : List (Fld K)) :
+theorem single_total {M : Type} [AddCommMonoid M] (e : Fld K → M) (fs : List (Fld K)) :
     ((fs.map Group.single).map (Group.weight e)).sum = (fs.map e).sum := by
   rw [List.map_map]
   congr 1
